@@ -178,3 +178,84 @@ func DebugConc(run *Run) {
 	concWritesProbe(run)
 	fmt.Println("conc classes:", run.Coverage["concurrent_write_classes"], "violations:", run.Violations())
 }
+
+// burstWalkProbe (C14): bursts of concurrent writers on distinct keys, then a paginated walk of the
+// changelog entries the burst appended; ConcWriteTrace!TrBurst requires every entry exactly once.
+func burstWalkProbe(run *Run) {
+	ctx := context.Background()
+	r := rand.New(rand.NewSource(run.Seed + 1400))
+	var events []any
+	for _, backend := range []string{"memory", "sqlite"} {
+		se, err := NewStoreEnv(backend)
+		if err != nil {
+			run.Inconclusive("backend %s: %v", backend, err)
+		}
+		rec := &StoreRec{Backend: backend}
+		rec.Reset()
+		sid, mid, err := se.newStore(ctx, rec, "burst", StoreModel())
+		if err != nil {
+			run.Inconclusive("burst store: %v", err)
+		}
+		token := ""
+		bursts := run.Pick(6, 40)
+		if backend == "sqlite" {
+			bursts = run.Pick(3, 15)
+		}
+		for b := 0; b < bursts; b++ {
+			writers, per := 8+r.Intn(9), 20
+			if backend == "sqlite" {
+				writers, per = 4, 8
+			}
+			var wg sync.WaitGroup
+			var okCount sync.Map
+			for g := 0; g < writers; g++ {
+				wg.Add(1)
+				go func(g int) {
+					defer wg.Done()
+					n := 0
+					for i := 0; i < per; i++ {
+						ev := &WriteEv{Wrs: []Tuple{tp(fmt.Sprintf("doc:b%dg%di%d", b, g, i), "viewer", "user:a")}}
+						se.apiWrite(ctx, sid, mid, ev)
+						if ev.Got == "ok" {
+							n++
+						}
+					}
+					okCount.Store(g, n)
+				}(g)
+			}
+			wg.Wait()
+			written := 0
+			okCount.Range(func(_, v any) bool { written += v.(int); return true })
+			seen := map[string]int{}
+			delivered := 0
+			size := 3 + r.Intn(9)
+			for guard := 0; guard < 100000; guard++ {
+				page, tok, err := se.DS.ReadChanges(ctx, sid, storage.ReadChangesFilter{}, storage.ReadChangesOptions{Pagination: storage.NewPaginationOptions(int32(size), token)})
+				if errors.Is(err, storage.ErrNotFound) || (err == nil && len(page) == 0) {
+					break
+				}
+				if err != nil {
+					run.Inconclusive("burst read changes: %v", err)
+				}
+				for _, c := range page {
+					seen[tuple.TupleKeyToString(c.GetTupleKey())]++
+					delivered++
+				}
+				token = tok
+			}
+			events = append(events, map[string]any{"e": "BurstWalk", "backend": backend, "written": written, "delivered": delivered, "distinct": len(seen), "page": size, "writers": writers})
+			run.Evals++
+			run.Nontrivial(fmt.Sprintf("burst %s %d", backend, b))
+		}
+		se.Close()
+	}
+	sum, err := ValidateTrace(StoreSpecDirs(), "ConcWriteTrace", events, 2, func(int) bool { return true }, 10*time.Minute)
+	if err != nil {
+		run.Inconclusive("ConcWriteTrace (burst) validation failed: %v", err)
+	}
+	for _, b := range sum.Bad {
+		run.Classified(b.Cls, map[string]any{"prop": run.Prop, "class": b.Cls, "kind": "burst", "event": events[b.L]}, fmt.Sprintf("%s %s", b.Cls, jsonOf(events[b.L])))
+	}
+	run.Coverage["burst_walks_judged"] = sum.Judged
+	run.Coverage["burst_walk_classes"] = sum.Counts
+}
